@@ -168,6 +168,8 @@ def render_int(x: SymInt, spec: str) -> str:
 
 
 def sym_chr(x):
+    if getattr(type(x), "_symx_fixedint_model", False):
+        x = x._v
     if type(x) is builtins.int:
         return builtins.chr(x)
     if isinstance(x, SymInt):
